@@ -93,6 +93,14 @@ Definition dyn_token (ty : term) (T : list A) (s e : nat) : token A term :=
         (dyn_end_pos i1 (fst st1) (snd st1)).
 End Dyn.
 
+(* the dynamic scanner's newline test, instantiated for the two representations:
+   str   - elements are one-character strings: [x == '\n'] is [eqb x nl], [x == 10] is false
+   bytes - elements are integers:              [x == '\n'] is false, [x == 10] is [eqb x nl] *)
+Definition isnl_str {A} (eqb : A -> A -> bool) (nl : A) (x : A) : bool :=
+  dyn_isnl (fun y => eqb y nl) (fun _ => false) x.
+Definition isnl_bytes {A} (eqb : A -> A -> bool) (nl : A) (x : A) : bool :=
+  dyn_isnl (fun _ => false) (fun y => eqb y nl) x.
+
 (* ---------------------------------------------------------------- representation maps (C15) *)
 Definition shift_outcome (a : Z) (ln col : Z -> Z) (o : outcome) : outcome :=
   match o with
